@@ -364,12 +364,13 @@ pub fn replay(case: &serde_json::Value) -> Result<Option<String>, String> {
             return Err(format!("bad corefam name {name}"));
         }
         let size: usize = parts[2].trim_start_matches('n').parse().map_err(|_| "size")?;
-        let index: usize = parts[3].parse().map_err(|_| "index")?;
+        let ids = parts[3].ends_with("#ids");
+        let index: usize = parts[3].trim_end_matches("#ids").parse().map_err(|_| "index")?;
         let (_, alpha, _) = core_enumeration(true, prop).into_iter().find(|(n, _, _)| *n == parts[1]).ok_or("alphabet")?;
         let mut e = crate::generate::corefam::Enum::new(alpha);
         let all = e.stmts(crate::generate::corefam::initial_scope(), size);
         let st = all.get(index).ok_or("index out of range")?;
-        let prog = crate::generate::corefam::program(st);
+        let prog = crate::generate::corefam::program_ids(st, true, ids).0;
         let mut rep = Report::default();
         check_core_case(name, &prog, prop, &mut rep);
         if let Some(v) = rep.violations.first() {
@@ -599,6 +600,12 @@ pub fn core_worker(ctx: &WorkerCtx, prop: Prop, rep: &mut Report) {
                 }
                 let prog = program(s);
                 check_core_case(&format!("core/{aname}/n{size}/{i}"), &prog, prop, rep);
+                // the partly unique variant (outer identifiers with non-zero ids, same base names
+                // re-bound with id 0 inside), when some inner binder does shadow an outer name
+                let (pu, shadowed) = crate::generate::corefam::program_ids(s, true, true);
+                if shadowed {
+                    check_core_case(&format!("core/{aname}/n{size}/{i}#ids"), &pu, prop, rep);
+                }
             }
             if ctx.out_of_time() {
                 rep.capped = Some(format!("time budget hit in the Core enumeration {aname} at size {size}"));
@@ -612,7 +619,18 @@ pub fn core_worker(ctx: &WorkerCtx, prop: Prop, rep: &mut Report) {
 // C05 on the complete space of small non-linear statements (G-AX(a))
 // ---------------------------------------------------------------------------------------------
 
+/// The statement as generated (`max_id` far above every id), with `max_id` equal to the highest id
+/// in use (what the real pipeline hands to the linearizer), and with all variable ids mirrored so
+/// that the entry definition holds the highest ids.
 pub fn check_nl(case: &crate::generate::axnl::NlCase, rep: &mut Report) {
+    check_nl_one(case, rep);
+    let t = crate::generate::axnl::NlCase { name: format!("{}#tight", case.name), prog: crate::generate::axpad::tight(&case.prog), args: case.args.clone() };
+    check_nl_one(&t, rep);
+    let m = crate::generate::axnl::NlCase { name: format!("{}#mirrored", case.name), prog: crate::generate::axpad::mirrored_tight(&case.prog), args: case.args.clone() };
+    check_nl_one(&m, rep);
+}
+
+fn check_nl_one(case: &crate::generate::axnl::NlCase, rep: &mut Report) {
     use printer::Print;
     rep.count("cases", 1);
     rep.count("nonlinear_statements", 1);
@@ -671,7 +689,8 @@ pub fn nl_worker(ctx: &WorkerCtx, rep: &mut Report) {
 }
 
 fn replay_nl(case: &serde_json::Value) -> Result<Option<String>, String> {
-    let name = case["name"].as_str().ok_or("name")?.to_string();
+    let full = case["name"].as_str().ok_or("name")?.to_string();
+    let name = full.split('#').next().unwrap_or("").to_string();
     let mut found = None;
     crate::generate::axnl::enumerate(4, |c| {
         if found.is_none() && c.name == name {
@@ -686,7 +705,7 @@ fn replay_nl(case: &serde_json::Value) -> Result<Option<String>, String> {
     let c = found.ok_or("case not found")?;
     let mut rep = Report::default();
     check_nl(&c, &mut rep);
-    if let Some(v) = rep.violations.first() {
+    if let Some(v) = rep.violations.iter().find(|v| v.msg.starts_with(&format!("{full}:"))).or(rep.violations.first()) {
         return Ok(Some(format!("{}: {}", v.sig, v.msg)));
     }
     Ok(None)
